@@ -3,6 +3,7 @@
    Print Assumptions.  GENERATED skeleton (tools/mkprops.py), statements are the ones Coq prints for the lemmas. *)
 From Coq Require Import ZArith Reals List Bool String.
 From VQ Require Import Num Model.Vec Model.Core Model.Dist Proofs.DistProofs Glue.CoreGlue Glue.Pin_p_dist Glue.Pin_o_euclid_collectives Glue.Pin_o_cosine_collectives Glue.Pin_o_kmeans_collectives.
+From VQ Require Import Glue.Pin_fp_C16.
 Import ListNotations.
 Open Scope R_scope.
 
@@ -119,3 +120,8 @@ Theorem C16_tie_distributed_wiring :
   p_dist.p_dist = pinned_p_dist.
 Proof. exact (@pin_p_dist). Qed.
 Print Assumptions C16_tie_distributed_wiring.
+
+Theorem C16_tie_source_footprint :
+  fp_C16.fp_C16 = pinned_fp_C16.
+Proof. exact (@Pin_fp_C16.pin_fp_C16). Qed.
+Print Assumptions C16_tie_source_footprint.
